@@ -917,7 +917,13 @@ Definition resume (s0 : st) (t : tid) (fo : option fid) : st * res :=
             let s3 := fst (scope_enter s2 c t) in
             let '(s4, wf) := event_wait s3 t (k_hevent (tasks s3 child)) in
             blocked (set_ctl s4 t (CStartJoin child c e wf))
-          else ret_to_puppet s t (RExc e)
+          else
+            (* the child failed before started() and handed its exception to the start future, but the caller
+               was natively cancelled before it retrieved it: the future's exception takes precedence (F20) *)
+            match f_st (futs s f) with
+            | FExc e' => ret_to_puppet s t (RExc e')
+            | _ => ret_to_puppet s t (RExc e)
+            end
       end
   | CStartJoin child c e wf =>
       let s1 := event_unwait s (k_hevent (tasks s child)) wf in
@@ -964,12 +970,16 @@ Definition run_task_done (s0 : st) (t : tid) : st :=
           | Some (FCanc _) =>
               if is_cancel e then s4 else
               let s5 := upd_group s4 g (fun x => gr_excs (g_excs x ++ [(t, e)]) x) in
-              if eff_cancelled s5 (g_scope (groups s5 g)) then s5 else scope_cancel s5 (g_scope (groups s5 g)) false
+              (* F23: a failed child cancels the group's OWN scope unless that one is already cancelled *)
+              if s_cancelled (scopes s5 (g_scope (groups s5 g))) then s5 else scope_cancel s5 (g_scope (groups s5 g)) false
           | Some FPend =>
               match sf with Some f => fut_complete s4 f (FExc e) | None => s4 end
           | _ =>
-              let s5 := if is_cancel e then s4 else upd_group s4 g (fun x => gr_excs (g_excs x ++ [(t, e)]) x) in
-              if eff_cancelled s5 (g_scope (groups s5 g)) then s5 else scope_cancel s5 (g_scope (groups s5 g)) false
+              if is_cancel e then
+                if eff_cancelled s4 (g_scope (groups s4 g)) then s4 else scope_cancel s4 (g_scope (groups s4 g)) false
+              else
+                let s5 := upd_group s4 g (fun x => gr_excs (g_excs x ++ [(t, e)]) x) in
+                if s_cancelled (scopes s5 (g_scope (groups s5 g))) then s5 else scope_cancel s5 (g_scope (groups s5 g)) false
           end
       | None =>
           match sf, sf_state with
